@@ -202,3 +202,6 @@ def run(ctx: common.Ctx):
     # algorithm-level tie: Model/Search.lean (theorem Ndx.C12.searchsortedImpl_eq_count / searchsorted_correct)
     from .. import searchtie
     searchtie.run(ctx, 96 if quick else 800)
+    # graph-level tie of nonzero: coordinate grid + Compress + GatherElements (Model/TGraphScatter.nonzeroGraph; Props/C12Nonzero.lean)
+    from .. import scattertie
+    scattertie.run(ctx, 150 if quick else 3000, label="nonzero", kinds=("nonzero",))
